@@ -176,3 +176,43 @@ Example C01_ternary_engine_nonvacuous :
     Ok [mkNode 3 0 0; mkNode 3 1 1; mkNode 2 0 1; mkNode 1 2 1; mkNode 2 1 0; mkNode 1 4 1; mkNode 0 5 3]%list.
 Proof. vm_compute. repeat split; reflexivity. Qed.
 Print Assumptions C01_ternary_engine_nonvacuous.
+
+(* ---- the efficient version of the ternary engine (Model/Apply3Fast.v: PositiveMap operands, memo table keyed by the task
+   TRIPLE in a three-level PositiveMap, reversed store) that the correspondence driver runs on operands above 300 nodes
+   computes exactly the reference engine's outcome, for ALL inputs (no hypotheses) ---- *)
+From BddVerif Require Import Model.Apply3Fast Proofs.Apply3Fast.
+
+Theorem C01_ternary_fast_engine_refines : forall A B C fa fb fc fo op,
+  apply3_fast A B C fa fb fc fo op = apply3 A B C fa fb fc fo op.
+Proof. exact apply3_fast_eq. Qed.
+Print Assumptions C01_ternary_fast_engine_refines.
+
+Theorem C01_ternary_fast_refines : forall A B C fa fb fc fo op,
+  fused_ternary_flip_op_faithful_fast A B C fa fb fc fo op = fused_ternary_flip_op_faithful A B C fa fb fc fo op.
+Proof. exact fused_ternary_flip_op_faithful_fast_eq. Qed.
+Print Assumptions C01_ternary_fast_refines.
+
+Theorem C01_ternary_fast_if_then_else_refines : forall A B C,
+  if_then_else_faithful_fast A B C = if_then_else_faithful A B C.
+Proof. exact if_then_else_faithful_fast_eq. Qed.
+Print Assumptions C01_ternary_fast_if_then_else_refines.
+
+Theorem C01_ternary_fast_pointwise : forall A B C fa fb fc fo op,
+  wf A -> wf B -> wf C -> nvars A = nvars B -> nvars B = nvars C ->
+  (flip_ok (nvars A) fa && flip_ok (nvars A) fb && flip_ok (nvars A) fc && flip_ok (nvars A) fo = true) ->
+  total3 op -> consistent3 op ->
+  exists r, fused_ternary_flip_op_faithful_fast A B C fa fb fc fo op = Ok r /\ Canonical r /\ nvars r = nvars A /\
+    forall v, eval r v = conn3 op (eval A (oflip fa (oflip fo v))) (eval B (oflip fb (oflip fo v)))
+                                  (eval C (oflip fc (oflip fo v))).
+Proof. exact fused_ternary_flip_op_faithful_fast_correct. Qed.
+Print Assumptions C01_ternary_fast_pointwise.
+
+Example C01_ternary_fast_nonvacuous :
+  let A := [mkNode 3 0 0; mkNode 3 1 1; mkNode 2 0 1; mkNode 0 0 2]%list in
+  let B := [mkNode 3 0 0; mkNode 3 1 1; mkNode 2 0 1; mkNode 1 1 2; mkNode 0 2 3]%list in
+  let C := [mkNode 3 0 0; mkNode 3 1 1; mkNode 1 1 0]%list in
+  fused_ternary_flip_op_faithful_fast A B C (Some 0) None (Some 1) (Some 2) ite_function
+    = fused_ternary_flip_op_faithful A B C (Some 0) None (Some 1) (Some 2) ite_function /\
+  exists r, if_then_else_faithful_fast A B C = Ok r /\ 3 <= size r.
+Proof. exact apply3_fast_example. Qed.
+Print Assumptions C01_ternary_fast_nonvacuous.
